@@ -55,7 +55,7 @@ def main(argv):
             elif r.get('case'):
                 lines.append('%s\t%s\t%s' % (r.get('kind', 'ANM'), r['case'], r.get('source', '')))
         else:
-            n = 400 if tier == "quick" else 24000
+            n = 400 if tier == "quick" else 12000
             par = 8 if tier == 'quick' else 12
             per = n // par
             lines = run_parallel(v, [['run', per, k * per] for k in range(par)], seed)
